@@ -52,6 +52,22 @@ CHECKS = {
         design_ref="DESIGN.md section 2, C04"),
 }
 
+CHECKS["C12"] = dict(
+    level="fault_enumeration",
+    technique="fault injection: forced-include allocation shim fails the k-th "
+              "libvna allocation of scripted histories, every k; differential "
+              "comparison with the fault-free run; ASan/UBSan/LSan",
+    text="For nine scripted histories (parameters, properties, vnadata incl. "
+         "save/load in three file types, five calibration flows) every "
+         "allocation index made from libvna source text is failed once "
+         "(thorough: all; quick: all of two scripts, every 7th of the rest). "
+         "The faulted call must succeed or fail with ENOMEM, nothing may "
+         "crash or leak, and after one retry all later events, dumps and "
+         "saved bytes equal the fault-free run.",
+    note="single fault per run; libyaml/libc allocations are not faulted; "
+         "observer ops (dumps) are excluded from injection",
+    design_ref="DESIGN.md section 2, C12")
+
 NOT_YET = {}
 
 
